@@ -134,14 +134,10 @@ class Graph:
             if n.noreturn:
                 continue
             if term and term['k'] in COND_TERMS and len(succs) == 2 and 'cond' in term:
+                # NB: with every sub-expression in the CFG, `if (A && B)` is tested in a join block whose
+                # condition is the whole `A && B`; the short-circuit edges carry A alone.  The whole
+                # condition is kept; analysis.atoms() refines it with what is already known on the path.
                 c = term['cond']
-                # the block that ends a short-circuit chain evaluates only the last operand
-                for _ in range(20):
-                    ce = f.x(c)
-                    if ce is not None and ce['k'] == 'binop' and ce['op'] in ('&&', '||'):
-                        c = ce['r']
-                    else:
-                        break
                 for s, pol in zip(succs, (True, False)):
                     if s >= 0:
                         n.succs.append((m[s].id, (f, ctx, c, pol)))
